@@ -67,6 +67,7 @@ class CryptoContext:
         self.cipher_suite: Optional[CipherSuite] = None
         self.hp: Optional[HeaderProtection] = None
         self.key_phase = key_phase
+        self.previous_aead: Optional[AEAD] = None
         self.secret: Optional[bytes] = None
         self.version: Optional[int] = None
         self._setup_cb = setup_cb
@@ -93,12 +94,26 @@ class CryptoContext:
         if not is_long_header(first_byte):
             key_phase = (first_byte & 4) >> 2
             if key_phase != self.key_phase:
+                if self.previous_aead is not None:
+                    # We updated our keys, but the peer may not have followed yet:
+                    # try the keys which were in use before our update.
+                    try:
+                        payload = self.previous_aead.decrypt(
+                            packet[len(plain_header) :], plain_header, packet_number
+                        )
+                        return plain_header, payload, packet_number, False
+                    except CryptoError:
+                        pass
                 crypto = next_key_phase(self)
 
         # payload protection
         payload = crypto.aead.decrypt(
             packet[len(plain_header) :], plain_header, packet_number
         )
+
+        if crypto is self:
+            # The peer uses the current keys, the previous ones are not needed.
+            self.previous_aead = None
 
         return plain_header, payload, packet_number, crypto != self
 
@@ -137,6 +152,7 @@ class CryptoContext:
 
     def teardown(self) -> None:
         self.aead = None
+        self.previous_aead = None
         self.cipher_suite = None
         self.hp = None
         self.secret = None
@@ -249,6 +265,10 @@ class CryptoPair:
             return self.recv.key_phase
 
     def _update_key(self, trigger: str) -> None:
+        # When we initiate the key update, packets which the peer sent before
+        # it learns about it are still protected with the current keys.
+        previous_aead = self.recv.aead if trigger == "local_update" else None
         apply_key_phase(self.recv, next_key_phase(self.recv), trigger=trigger)
+        self.recv.previous_aead = previous_aead
         apply_key_phase(self.send, next_key_phase(self.send), trigger=trigger)
         self._update_key_requested = False
